@@ -578,7 +578,7 @@ class C20(vlib.Driver):
                                          f"generation {gi}: {d['eval_resets']} evaluation episodes for {npop} agents with eval_loop={case.get('eval_loop', 1)}"))
                     break
         for what in obs.get("args_changed", []):
-            out.append(Violation("arguments-modified", f"arguments-modified:{tag}:{what.split(' ')[0].split(':')[-1]}",
+            out.append(Violation("arguments-modified", f"arguments-modified:{what.split(' ')[0].split(':')[-1]}:{tag}",
                                  f"the caller's {what} was modified by the call"))
         for rl in obs.get("reloaded", []):
             saved = None
@@ -660,6 +660,30 @@ class C20(vlib.Driver):
         want = [(ReplayBuffer(4), "sample_standard"), (MultiStepReplayBuffer(4, n_step=2), "sample_n_step"),
                 (PrioritizedReplayBuffer(4, alpha=0.6), "sample_per"),
                 (MultiAgentReplayBuffer(4, field_names=["state"], agent_ids=["a_0"]), "sample_standard")]
+        # tournament_selection_and_mutation (public helper, called directly): returns the new generation and leaves the
+        # population list it was handed as it was (the training loops rebind their own list before calling it)
+        import numpy as np
+        from gymnasium import spaces
+        from agilerl.utils.utils import create_population, tournament_selection_and_mutation
+        from agilerl.hpo.tournament import TournamentSelection
+        from agilerl.hpo.mutation import Mutations
+        lst = create_population("DQN", spaces.Box(-1.0, 1.0, (4,), np.float32), spaces.Discrete(2),
+                                {"encoder_config": {"hidden_size": [16]}, "head_config": {"hidden_size": [16]}},
+                                {"BATCH_SIZE": 4}, population_size=3)
+        for i, a in enumerate(lst):
+            a.fitness = [float(i)]
+        given = list(lst)
+        new = tournament_selection_and_mutation(population=lst, tournament=TournamentSelection(2, True, 3, 1),
+                                                mutation=Mutations(1.0, 0, 0, 0, 0, 0, rand_seed=0), env_name="c20")
+        if len(lst) != 3 or any(a is not b for a, b in zip(lst, given)):
+            out.append(Violation("arguments-modified", "arguments-modified:pop:tournament_selection_and_mutation",
+                                 "tournament_selection_and_mutation wrote into the population list it was handed "
+                                 f"(indices now {[int(a.index) for a in lst]}, were [0, 1, 2])",
+                                 {"static": "tournament_selection_and_mutation(population=[3 x DQN])"}, None, found_input=True))
+        if len(new) != 3 or len({int(a.index) for a in new}) != 3 or int(new[0].index) != 2:
+            out.append(Violation("indices", "indices:static:tournament_selection_and_mutation",
+                                 f"direct call on fitness [0,1,2]: returned indices {[int(a.index) for a in new]} (elite 2 first, 3 distinct expected)",
+                                 {"static": "tournament_selection_and_mutation(population=[3 x DQN])"}, None, found_input=True))
         for mem, name in want:
             got = getattr(Sampler(memory=mem).sample, "__name__", "?")
             if got != name:
